@@ -21,7 +21,7 @@ import z3
 
 from .engine import Unsupported
 from .loops import havoc_value
-from .values import PList, SArr, Sym, fresh, fresh_name, to_z3, zint
+from .values import PList, SArr, Sym, fresh, fresh_name, next_uid, to_z3, zint
 
 I, B = z3.IntSort(), z3.BoolSort()
 
@@ -32,13 +32,23 @@ def _TRUE(E, v, x, val, ctx):
 
 class Rule:
     """J(E, vars, ENT, LEFT, ctx) -> z3 Bool;  Qe/Ql(E, vars, x, val, ctx) -> z3 Bool / bool;  `modifies`: expressions (in the
-    caller's frame) of the state the callbacks may change;  enter_kind / leave_kind: kind of the callback results
+    caller's frame; or callables E -> object) of the state the callbacks may change;  enter_kind / leave_kind: kind of the callback results
     ('bool' | 'int' | 'real' | 'oref' | callable(E) -> fresh symbolic value);  leave_args_kind likewise for the list elements."""
 
     def __init__(self, J, Qe=None, Ql=None, modifies=(), enter_kind="oref", leave_kind="oref", depth=None, label="traverse",
-                 ghost_enter=None, ghost_leave=None):
-        # ghost_enter / ghost_leave(E, vars, x, ctx): ghost code run right after the real callback (may update ghost objects listed in `modifies` only)
+                 ghost_enter=None, ghost_leave=None, leave_args=None):
+        # ghost_enter / ghost_leave(E, vars, x, ctx): ghost code run right after the real callback (may update ghost objects listed in `modifies` only;
+        # the call just made is in E.ghost["traverse-last-call"] = dict(x=, args=, ret=, ENT=, LEFT=), also for proof-step hints)
         self.ghost_enter, self.ghost_leave = ghost_enter, ghost_leave
+        # NON-SCALAR callback values (kind = callable(E) -> fresh symbolic value):
+        #  * an enter value is shared by all children of the node, so the constructor must hand out a FROZEN object (a write through it
+        #    is then a failed frame obligation);
+        #  * leave values are owned by the traversal (each is handed to exactly one `leave` call, which may consume / mutate it): the list
+        #    of child results is built by leave_args(E, K) -> (list value of symbolic length K, get(k: z3 Int) -> value of the k-th child),
+        #    and the value a `leave` call returns must own its mutable parts (obligation leave/returned-value-owns-its-mutable-parts:
+        #    every non-frozen container in it was allocated during the call or came in with the child results);
+        #  * Ql / Qe of non-scalar values must speak about the value and immutable ghost vocabulary only (they are assumed in later states).
+        self.leave_args = leave_args
         self.J, self.Qe, self.Ql = J, Qe or _TRUE, Ql or _TRUE
         self.modifies = list(modifies)
         self.enter_kind, self.leave_kind = enter_kind, leave_kind
@@ -63,7 +73,42 @@ def _mk_value(eng, kind, name):
 
 
 def _zb(x):
+    if isinstance(x, (list, tuple)):  # a list of (label, formula) conjuncts
+        return z3.And(*[_zb(f) for _, f in x]) if x else z3.BoolVal(True)
     return z3.BoolVal(x) if isinstance(x, bool) else x
+
+
+def _prove_parts(eng, name, x, kind="invariant"):
+    """a value predicate may return one formula or a list of (label, formula) conjuncts (each its own obligation)"""
+    if isinstance(x, (list, tuple)):
+        for l, f in x:
+            eng.prove(f"{name}/{l}", _zb(f), kind)
+    else:
+        eng.prove(name, _zb(x), kind)
+
+
+def _owned(v, mark, seen=None):
+    """every mutable (non-frozen) container reachable from `v` was allocated after uid `mark`"""
+    from .values import NArr, Obj, PDict
+
+    seen = seen if seen is not None else set()
+    if id(v) in seen:
+        return True
+    seen.add(id(v))
+    if isinstance(v, (tuple, list)):
+        return all(_owned(x, mark, seen) for x in v)
+    if isinstance(v, (PList, PDict, SArr, NArr)):
+        if not getattr(v, "frozen", False) and v.uid <= mark:
+            return False
+        items = getattr(v, "items", None)
+        if isinstance(v, PList) and items is not None:
+            return all(_owned(x, mark, seen) for x in items)
+        if isinstance(v, PDict) and items is not None:
+            return all(_owned(x, mark, seen) for x in items.values())
+        return True
+    if isinstance(v, Obj):
+        return getattr(v, "frozen", False) or all(_owned(x, mark, seen) for x in v.fields.values())
+    return True
 
 
 def apply(eng, rule: Rule, fr, topology, enter, leave, root):
@@ -110,6 +155,7 @@ def apply(eng, rule: Rule, fr, topology, enter, leave, root):
                         "reading of the contract of _traverse_dfs proved in contracts/C04.py; the obligations emitted here instantiate its premises by inspection")
     ctx = Ctx(P, n, rz, Sub, nkids, kid, rank)
     eng.ghost["last-traverse-Sub"] = Sub  # so that the caller's postconditions can speak about the subtree of this call
+    eng.ghost["last-traverse-ctx"] = ctx  # ... and about the children enumeration (nkids / kid / rank) of this call
 
     def vars_now():
         eng.cur_frame = fr
@@ -121,6 +167,9 @@ def apply(eng, rule: Rule, fr, topology, enter, leave, root):
         out = []
         for m in rule.modifies:
             if isinstance(m, tuple) and m[0] == "local":
+                continue
+            if callable(m):  # fn(E) -> the (ghost) object itself, for state that is not reachable by name from the client's frame
+                out.append(m(eng))
                 continue
             hint = None
             if isinstance(m, tuple):  # ("expr", element kinds): a still-concrete list / dict is promoted to a symbolic one of that element type
@@ -139,9 +188,25 @@ def apply(eng, rule: Rule, fr, topology, enter, leave, root):
             if isinstance(m, tuple) and m[0] == "local":  # ("local", name, kind): a scalar local of the carrier that a callback rebinds (nonlocal)
                 fr.vars[m[1]] = fresh(m[2], m[1])
 
+    def J_parts(ENT, LEFT):
+        """the invariant as a list of (label suffix, formula): J may return one formula or a list of (label, formula) conjuncts,
+        each of which is then its own obligation"""
+        r = rule.J(eng, vars_now(), ENT, LEFT, ctx)
+        if isinstance(r, (list, tuple)):
+            return [("/" + l, _zb(f)) for l, f in r]
+        return [("", _zb(r))]
+
+    def prove_J(step, ENT, LEFT):
+        for suffix, f in J_parts(ENT, LEFT):
+            eng.prove(f"{lab}/{step}{suffix}", f, "invariant")
+
+    def assume_J(ENT, LEFT):
+        for _, f in J_parts(ENT, LEFT):
+            eng.assume(f)
+
     emptyset = z3.K(I, z3.BoolVal(False))
     # ---- init
-    eng.prove(f"{lab}/init/invariant-holds-before-the-first-event", _zb(rule.J(eng, vars_now(), emptyset, emptyset, ctx)), "invariant")
+    prove_J("init/invariant-holds-before-the-first-event", emptyset, emptyset)
 
     def phase(body):
         """run `body` on an arbitrary reachable state; its assumptions are dropped afterwards"""
@@ -153,7 +218,7 @@ def apply(eng, rule: Rule, fr, topology, enter, leave, root):
     # ---- the value predicates must not read state that the callbacks may change (lean/TraverseRule.lean takes Qe / Ql as
     #      predicates of (node, value) only): evaluated before and after a havoc they must be the same formula
     def independent(which, fn, kind):
-        if fn is _TRUE or callable(kind):
+        if fn is _TRUE:
             return
 
         def body():
@@ -182,19 +247,23 @@ def apply(eng, rule: Rule, fr, topology, enter, leave, root):
             eng.assume(z3.ForAll([c], z3.And(z3.Implies(sel(LEFT, c), sel(ENT, c)), z3.Implies(sel(ENT, c), Sub(c)),
                                              z3.Implies(z3.And(sel(ENT, c), c != rz), sel(ENT, sel(P, c))))))
             eng.assume(z3.And(Sub(xz), z3.Not(sel(ENT, xz)), z3.Not(sel(LEFT, xz))))
-            eng.assume(_zb(rule.J(eng, vars_now(), ENT, LEFT, ctx)))
+            eng.assume(R(xz))  # instance of Sub(x) -> R(x), stated quantifier-free so that path pruning sees it
+            assume_J(ENT, LEFT)
             if eng.branch(eng.sbool(xz == rz)):
                 pre = None
             else:
                 eng.assume(z3.And(sel(ENT, par), z3.Not(sel(LEFT, par))))
                 pre = _mk_value(eng, rule.enter_kind, "pre")
-                eng.assume(_zb(rule.Qe(eng, vars_now(), par, pre, ctx)))
+                qe = rule.Qe(eng, vars_now(), par, pre, ctx)
+                for part in ([f for _, f in qe] if isinstance(qe, (list, tuple)) else [qe]):
+                    eng.assume(_zb(part))
             ret = eng.call(enter, [xs, pre], {})
+            eng.ghost["traverse-last-call"] = dict(x=xz, args=pre, ret=ret, ENT=ENT, LEFT=LEFT)
             if rule.ghost_enter is not None:
                 rule.ghost_enter(eng, vars_now(), xz, ctx)
             ENT2 = z3.Store(ENT, xz, z3.BoolVal(True))
-            eng.prove(f"{lab}/enter/invariant-preserved", _zb(rule.J(eng, vars_now(), ENT2, LEFT, ctx)), "invariant")
-            eng.prove(f"{lab}/enter/returned-value-as-specified", _zb(rule.Qe(eng, vars_now(), xz, ret, ctx)), "invariant")
+            prove_J("enter/invariant-preserved", ENT2, LEFT)
+            _prove_parts(eng, f"{lab}/enter/returned-value-as-specified", rule.Qe(eng, vars_now(), xz, ret, ctx))
 
         phase(enter_step)
 
@@ -209,33 +278,46 @@ def apply(eng, rule: Rule, fr, topology, enter, leave, root):
                                              z3.Implies(z3.And(sel(ENT, c), c != rz), sel(ENT, sel(P, c))),
                                              z3.Implies(z3.And(sel(LEFT, c), c != rz, sel(LEFT, sel(P, c))), z3.BoolVal(True)))))
             eng.assume(z3.And(Sub(xz), sel(ENT, xz), z3.Not(sel(LEFT, xz))))
+            eng.assume(R(xz))  # instance of Sub(x) -> R(x), stated quantifier-free so that path pruning sees it
             eng.assume(z3.ForAll([c], z3.Implies(z3.And(R(c), sel(P, c) == xz), z3.And(sel(ENT, c), sel(LEFT, c)))))
             eng.assume(z3.Implies(xz != rz, z3.And(sel(ENT, sel(P, xz)), z3.Not(sel(LEFT, sel(P, xz))))))
-            eng.assume(_zb(rule.J(eng, vars_now(), ENT, LEFT, ctx)))
+            assume_J(ENT, LEFT)
             args = None
             kind = rule.leave_kind
+            mark = next_uid()
             if callable(kind):
-                raise Unsupported("traverse rule: non-scalar leave values need a fixed number of children (not implemented)")
-            args = PList.fresh(kind, n=nkids(xz), name="kidvals")
+                if rule.leave_args is None:
+                    raise Unsupported("traverse rule: non-scalar leave values need Rule(leave_args=...)")
+                args, get = rule.leave_args(eng, nkids(xz))
+            else:
+                args = PList.fresh(kind, n=nkids(xz), name="kidvals")
+                get = lambda kz: Sym(sel(args.cols[0], kz), kind)
             v = vars_now()
-            eng.assume(z3.ForAll([k], z3.Implies(z3.And(0 <= k, k < nkids(xz)), _zb(rule.Ql(eng, v, kid(xz, k), Sym(sel(args.cols[0], k), kind), ctx)))))
+            ql = rule.Ql(eng, v, kid(xz, k), get(k), ctx)
+            for part in ([f for _, f in ql] if isinstance(ql, (list, tuple)) else [ql]):  # one hypothesis per conjunct
+                eng.assume(z3.ForAll([k], z3.Implies(z3.And(0 <= k, k < nkids(xz)), _zb(part))))
             ret = eng.call(leave, [xs, args], {})
+            if callable(kind):
+                eng.prove(f"{lab}/leave/returned-value-owns-its-mutable-parts", _zb(_owned(ret, mark)), "frame")
+            eng.ghost["traverse-last-call"] = dict(x=xz, args=args, ret=ret, ENT=ENT, LEFT=LEFT)
             if rule.ghost_leave is not None:
                 rule.ghost_leave(eng, vars_now(), xz, ctx)
             LEFT2 = z3.Store(LEFT, xz, z3.BoolVal(True))
-            eng.prove(f"{lab}/leave/invariant-preserved", _zb(rule.J(eng, vars_now(), ENT, LEFT2, ctx)), "invariant")
-            eng.prove(f"{lab}/leave/returned-value-as-specified", _zb(rule.Ql(eng, vars_now(), xz, ret, ctx)), "invariant")
+            prove_J("leave/invariant-preserved", ENT, LEFT2)
+            _prove_parts(eng, f"{lab}/leave/returned-value-as-specified", rule.Ql(eng, vars_now(), xz, ret, ctx))
 
         phase(leave_step)
 
     # ---- conclusion
     havoc()
     S_all = z3.Lambda([x], Sub(x))
-    eng.assume(_zb(rule.J(eng, vars_now(), S_all, S_all, ctx)))
+    assume_J(S_all, S_all)
     if leave is None:
         return None
     res = _mk_value(eng, rule.leave_kind, "trav")
-    eng.assume(_zb(rule.Ql(eng, vars_now(), rz, res, ctx)))
+    ql = rule.Ql(eng, vars_now(), rz, res, ctx)
+    for part in ([f for _, f in ql] if isinstance(ql, (list, tuple)) else [ql]):  # one hypothesis per conjunct
+        eng.assume(_zb(part))
     return res
 
 
